@@ -99,9 +99,26 @@ class Merge(Expr):
             predicate_columns = self._predicate_columns(predicate)
             if predicate_columns is None:
                 return False
-            if predicate_columns.issubset(self.left.columns):
+            # A non-key column present in both inputs keeps its bare name only
+            # on the side whose suffix is empty: that is the side it refers to
+            left_on = _convert_to_list(self.left_on) or []
+            right_on = _convert_to_list(self.right_on) or []
+            shared_keys = {lo for lo, ro in zip(left_on, right_on) if lo == ro}
+            renamed = (set(self.left.columns) & set(self.right.columns)) - shared_keys
+            left_suffix, right_suffix = self.suffixes[0], self.suffixes[1]
+            left_columns = {
+                col
+                for col in self.left.columns
+                if col not in renamed or left_suffix == ""
+            }
+            right_columns = {
+                col
+                for col in self.right.columns
+                if col not in renamed or right_suffix == ""
+            }
+            if predicate_columns.issubset(left_columns):
                 return self.how in ("left", "inner", "leftsemi")
-            elif predicate_columns.issubset(self.right.columns):
+            elif predicate_columns.issubset(right_columns):
                 return self.how in ("right", "inner")
             elif len(predicate_columns) > 0:
                 return False
